@@ -156,6 +156,27 @@ def step (_ : Unit) (ws : List String) : Unit × String :=
       if p.length ≠ n * t.width then bad idx
       else ((), joinSp [idx, allDecoders t fmt (encodeTypedRaw t n p)])
     | _, _, _, _ => bad idx
+  | ["cap", idx, _client, kind, c, k, plen, n, p] =>
+    -- the frame the client helper writes (id zeroed) and, for the frame at base misalignments 0..7,
+    -- whether the borrowing route borrows (b) or copies (c)
+    match tyOf c k, plen.toNat?, n.toNat?, unhex p with
+    | some t, some plen, some n, some p =>
+      let kind? : Option ClientKind :=
+        if kind = "bulk" then some .bulk else if kind = "aligned" then some .aligned
+        else if kind = "serde" then some .serde else none
+      match kind? with
+      | some kd =>
+        if p.length ≠ n * t.width then bad idx
+        else
+          let path : Bytes := if plen = 0 then [] else 0x2f :: List.replicate (plen - 1) 0x63
+          let m := clientRequest F kd t 0 path (chunks t.width n p)
+          let flag (mis : Nat) : Char :=
+            match sliceRefHandler F t m.header.bodyFormat (mis + 48 + path.length) m.body with
+            | .called i => if i.isBorrowed then 'b' else 'c'
+            | _ => 'x'
+          ((), joinSp [idx, hexOfBytes m.toVec, String.ofList ((List.range 8).map flag)])
+      | none => bad idx
+    | _, _, _, _ => bad idx
   | ["net", idx, _server, _client, kind, route, c, k, plen, n, p] =>
     match tyOf c k, plen.toNat?, n.toNat?, unhex p with
     | some t, some plen, some n, some p =>
